@@ -107,22 +107,31 @@ Definition u_checked (z : Z) : option Z := if z <? W then Some z else None.
 (* x ^ out_sa where out_sa is 0 or all ones *)
 Definition xor_mask (m : bool) (x : Z) : Z := if m then not_u x else x.
 
-Definition checked_mul256 (a b : i256) : option i256 :=
-  if is_eq a ZERO || is_eq b ZERO then Some ZERO else
-  let out_neg := xorb (high a <? 0) (high b <? 0) in          (* out_sa = (l_sa ^ r_sa) as u128 *)
-  let out_sa := if out_neg then W - 1 else 0 in
-  let l_abs := wrapping_abs256 a in
-  let r_abs := wrapping_abs256 b in
+(* checked_mul, in three steps (grouping of the straight-line source only):
+   1. product of the magnitudes with overflow detection -> (low, high) as two u128 *)
+Definition mul_magnitudes (l_abs r_abs : i256) : option (Z * Z) :=
   if negb (high l_abs =? 0) && negb (high r_abs =? 0) then None else
   let '(lo, hi) := mulx (low l_abs) (low r_abs) in
   match u_checked (wrapu (high l_abs) * low r_abs) with None => None | Some hl =>
   match u_checked (low l_abs * wrapu (high r_abs)) with None => None | Some lh =>
   match u_checked (hi + hl) with None => None | Some hi1 =>
-  match u_checked (hi1 + lh) with None => None | Some hi2 =>
-    let '(lo', c) := u_overflowing_sub (xor_mask out_neg lo) out_sa in
-    let hi' := wraps (wrapu (wrapu (xor_mask out_neg hi2 - out_sa) - b2z c)) in
-    if Bool.eqb (hi' <? 0) (xorb (is_negative a) (is_negative b)) then Some (mk256 lo' hi') else None
+  match u_checked (hi1 + lh) with None => None | Some hi2 => Some (lo, hi2)
   end end end end.
+(* 2. "reverse absolute value, if necessary": (x ^ out_sa) - out_sa over both limbs with borrow *)
+Definition restore_sign (out_neg : bool) (lo hi2 : Z) : i256 :=
+  let out_sa := if out_neg then W - 1 else 0 in
+  let '(lo', c) := u_overflowing_sub (xor_mask out_neg lo) out_sa in
+  mk256 lo' (wraps (wrapu (wrapu (xor_mask out_neg hi2 - out_sa) - b2z c))).
+(* 3. final sign check *)
+Definition checked_mul256 (a b : i256) : option i256 :=
+  if is_eq a ZERO || is_eq b ZERO then Some ZERO else
+  let out_neg := xorb (high a <? 0) (high b <? 0) in          (* out_sa = (l_sa ^ r_sa) as u128 *)
+  match mul_magnitudes (wrapping_abs256 a) (wrapping_abs256 b) with
+  | None => None
+  | Some (lo, hi2) =>
+      let r := restore_sign out_neg lo hi2 in
+      if Bool.eqb (high r <? 0) (xorb (is_negative a) (is_negative b)) then Some r else None
+  end.
 
 (* Ord::cmp: high.cmp(&other.high).then(low.cmp(&other.low)) *)
 Definition cmp256 (a b : i256) : comparison :=
